@@ -116,7 +116,7 @@ PROPS = {
         "bin": "px_sauce", "budget_ms": 30000, "wall_cap": {"quick": 600, "thorough": 2400},
         "rule": "per writer that appends SAUCE (ans, asc, avt, pcb, bin, xb, tnd, adf, idf, icy): title/author/group of every length 0..=LEN, LEN+1, LEN+5 x 7 content classes (letters, trailing blank, trailing NULs, inner NUL, leading blank, "
                 "high CP437 / control glyphs, all blanks); every comment count 0..=255 (line lengths cycling 0..=64, lines carrying SAUCE00 / COMNT / EOF bytes); every comment line length 0..=64, 65, 70 x 7 classes as only / second line; "
-                "all 8 flag combinations x (no font + the 16 SAUCE font names), also with an attached record that disagrees with the buffer about ice colours; every width 1..=1000 the format can hold; split: engine-written and hand-made contents (empty, 1 byte, 127/128/129 bytes, endings CR LF / EOF / SAUCE00 / COMNT / EOF SAUCE, "
+                "all 8 flag combinations x (no font + the 16 SAUCE font names), also with an attached record that disagrees with the buffer about ice colours; second generation in the same format and cross-format second generation (saved as X, loaded, saved as every other format Y, loaded); every width 1..=1000 the format can hold; split: engine-written and hand-made contents (empty, 1 byte, 127/128/129 bytes, endings CR LF / EOF / SAUCE00 / COMNT / EOF SAUCE, "
                 "a complete inner SAUCE record) x comment counts (all 0..=255 on the engine document; {0,1,2,3,254,255} on the others, thorough all) x 2 comment styles appended by a reference SAUCE writer; non-trivial = every loadable case",
         "level_text": "every value of each SAUCE field dimension (lengths, counts, flags, fonts, widths) is written by the real writers and read back by the real loader; every listed content x comment count is split by the real extractor and the pictures compared",
         "level_note": "string fields compare by what a fixed-width padded field can carry (trailing blanks / NULs are padding; a zero-terminated field ends at its first NUL); pictures compare cell by cell, the taller buffer may only have blank rows more",
@@ -126,7 +126,7 @@ PROPS = {
     "C12": {
         "bin": "px_layers", "budget_ms": 30000, "wall_cap": {"quick": 600, "thorough": 2400},
         "rule": "every glyph 0..255 of every built-in font page 0..=42 as the middle cell of 3-cell rows with neighbours from {0, 32, 255, 219, 'A'}, 8 colour contexts (incl. bright, equal fg/bg and an extra palette colour), bold on/off, "
-                "both settings of normalize_whitespaces; every glyph that is blank in its own page between cells of another font page (every page x 3 other pages); all stacks of 2 (thorough 3) layers of the small layer menu (alpha / offset / hidden / chars / attributes layers) above a base layer in 5 states (plain, hidden, locked, moved, alpha) for the flattening step; "
+                "both settings of normalize_whitespaces; every glyph that is blank in its own page between cells of another font page (every page x 3 other pages); all stacks of 2 (thorough 3) layers of the small layer menu (alpha / offset / hidden / chars / attributes layers) above a base layer in 6 states (plain, hidden, locked, moved, alpha, only its first row stored) and below a small floating layer low in the document for the flattening step; a copy of each page font with its blank glyphs edited in place (stale checksum) next to the original; "
                 "oracle: byte-identical render_to_rgba of input and ColorOptimizer::optimize(input), same size. non-trivial = one middle glyph / one stack",
         "level_text": "the complete glyph range of all built-in fonts and the complete small layer-stack scope are pushed through the real optimiser and renderer and compared pixel for pixel",
         "level_note": "the optimiser is a left-to-right fold over the previous cell's attribute, so 3-cell rows determine its behaviour; the primary font slot is set to the page under test so that the renderer draws every glyph row",
@@ -136,7 +136,7 @@ PROPS = {
     "C13": {
         "bin": "px_layers", "budget_ms": 30000, "wall_cap": {"quick": 600, "thorough": 2400},
         "rule": "all stacks of 1 and 2 layers over the rich layer menu (3 sizes x 4 offsets x 3 modes x alpha x visible x up to 15 contents incl. transparent-colour half blocks, visible NUL and invisible cells) and all stacks of 3 (thorough 4) layers over the small menu; "
-                "laws L1-L6 (L6: a layer placed with set_offset after a preview offset) and the reference compositor R evaluated on every stack at every position of the bounding box + 2 cells; non-trivial = the stack shows at least one visible cell",
+                "laws L1-L7 (L6: a layer placed with set_offset after a preview offset; L7: row storage - trailing rows not stored / rows stored beyond the height) and the reference compositor R evaluated on every stack at every position of the bounding box + 2 cells; non-trivial = the stack shows at least one visible cell",
         "level_text": "the complete small scope of layer stacks is composited by the real Buffer::get_char and checked against metamorphic stacking laws and a reference compositor transcribed from the statement",
         "level_note": "invisible results compare as invisible only; the reference compositor applies to normal-mode layers without transparent colours, the laws to all stacks",
         "technique": "small-scope exhaustive enumeration with metamorphic oracles and a reference model compared on every case",
@@ -155,7 +155,7 @@ PROPS = {
     "C16": {
         "bin": "px_palette", "budget_ms": 20000, "wall_cap": {"quick": 600, "thorough": 2400},
         "rule": "histories: every sequence of <=4 operations over 18 insert/set instances (a colour already present, new colours, indices 0, 5, len, len+2) from 4 start palettes (empty, DOS 16, 300 colours with a duplicate, named colours), "
-                "oracle after every step; every sequence of <=3 (thorough 4) colour-selecting control functions (incl. OSC 4 slot redefinition) through the real ANSI parser with a character printed after each (earlier cells must keep their colour); "
+                "oracle after every step; every sequence of <=3 (thorough 4) colour-selecting control functions (incl. OSC 4 slot redefinition of slots 1, 16, 17 and 255) through the real ANSI parser with a character printed after each (earlier cells must keep their colour); "
                 "files: 5 formats x (n=1: all 343 colours over 7 levels x 6x6 title/description texts x 2 authors x names on/off; n in {0,2,16,17,256,300} x 6 descriptions x names on/off; thorough: all 2^24 colours) ; all 64^3 six-bit colours",
         "level_text": "all operation histories up to the depth bound and the complete small-scope file menu are executed on the real Palette / parser / exporters / importers and compared with a list-of-RGB reference",
         "level_note": "'returns its existing index' is read as: an index that already resolved to that RGB before the call; Ase format is not implemented in the engine (todo!) and outside the five named formats",
@@ -164,8 +164,8 @@ PROPS = {
     },
     "C17": {
         "bin": "px_fonts", "budget_ms": 30000, "wall_cap": {"quick": 600, "thorough": 2400},
-        "rule": "bitmap fonts: every height 1..=32 x (6 (thorough 12) synthetic seeds whose glyph rows take every byte value, a rotation font, constant fonts 0x00/0xFF/0x1B/0x36) + every built-in font page 0..=42 + the 16 SAUCE fonts, each through "
-                "PSF2 (incl. rewrite stability), raw data via create_8 / from_basic / from_bytes, the DCS font sequence into slots 0/1/42/255 through the ANSI parser and a slot redefined three times within one session, XBin (1 and 2 fonts, compressed and not), ADF, IDF and IcyDraw (1 and 2 fonts); "
+        "rule": "bitmap fonts: every height 1..=32 x (6 (thorough 12) synthetic seeds whose glyph rows take every byte value, a rotation font, constant fonts 0x00/0xFF/0x1B/0x36) + every built-in font page 0..=42 + the default glyphs under another name with a glyph edited in place + the 16 SAUCE fonts, each through "
+                "PSF2 (incl. rewrite stability), raw data via create_8 / from_basic / from_bytes, the DCS font sequence into slots 0/1/42/255 through the ANSI parser and a slot redefined three times within one session, also directly after other string-type sequences (macro, sixel, OSC, APS), XBin (1 and 2 fonts, compressed and not), ADF, IDF and IcyDraw (1 and 2 fonts); "
                 "512-glyph PSF2 fonts of every height; TheDraw: every glyph size 1..=30 x 1..=12 x 3 types x 4 row styles, every number 0..=94 of defined glyphs x 3 placements x 3 types, names of 0..=12 characters, spacing 0..=40, "
                 "94 maximal glyphs (beyond the 16 bit offsets), bundles of 1..=34 mixed fonts x 3 type rotations; non-trivial = every font",
         "level_text": "every font of the stated small scope is pushed through every real encoder / decoder pair and compared bit by bit; TheDraw fonts are compared by name, type, spacing, has_char, rendered glyphs and re-serialised bytes",
@@ -175,7 +175,7 @@ PROPS = {
     },
     "C18": {
         "bin": "px_finite", "max_shards": 4,
-        "rule": "complete enumeration of 3x256 attribute bytes, all (fg,bg,blink,bold) tuples expressible in each mode, 4x256 code page codes, 4x63 typed characters; "
+        "rule": "complete enumeration of 3x256 attribute bytes, all (fg,bg,blink,bold) tuples expressible in each mode, 4x256 code page codes, 4x63 typed characters; every code round trip with every other code conversion interleaved and every typed-character round trip after every other lookup (all ordered pairs of calls - the converters are used as pure functions); "
                 "distinct_nontrivial = distinct (input, decoded value) fingerprints",
         "level_text": "the whole finite domain is enumerated on the real code: 3x256 attribute bytes, every expressible (fg,bg,blink,bold) tuple per mode, 4x256 code-page codes, 4x63 typed characters",
         "level_note": "trusts the harness's reading of 'expressible' (what from_u8 decodes) and compares displayed foreground (bold folded)",
@@ -185,7 +185,7 @@ PROPS = {
     },
     "C19": {
         "bin": "px_finite",
-        "rule": "complete enumeration: 2^16 CRC-16 states x 256 bytes, 16x256 CRC-32 table entries against the slicing recurrence and bitwise division, all strings of length<=2, "
+        "rule": "complete enumeration: 2^16 CRC-16 states x 256 bytes, 16x256 CRC-32 table entries against the slicing recurrence and bitwise division, all strings of length<=2, the incremental CRC-32 step on 4x65536 register values (every 16 bit pattern in the low / high half and their complements, incl. 0 and all ones) x 256 bytes, "
                 "for 57 lengths (0..48 and block-boundary lengths up to 255) x 3 backgrounds every single-position deviation with every byte value (an affine basis) "
                 "plus value-menu pairs at block boundaries; distinct_nontrivial = distinct (crc32, crc16) results",
         "level_text": "all 2^16x256 CRC-16 transitions, all 16x256 CRC-32 table entries against their recurrence, all strings of length <= 2 (<= 3 in thorough) and an affine basis of every length 0..48 (+block-boundary lengths to 255) compared with bit-at-a-time division",
@@ -197,9 +197,9 @@ PROPS = {
         "bin": "px_gfx", "budget_ms": 60000, "case_wall_ms": 10000, "judge_budget": True, "mem_cap_mb": 2048, "wall_cap": {"quick": 1200, "thorough": 3000},
         "rule": "RIPscrip: every command of the level-0 / level-1 / level-9 tables (+ unknown commands) x parameter strings of every length 0..=24 over {0,1,Z}: all strings up to length 5 (thorough 8) and, beyond, the three constant strings with <=1 (thorough 2) positions changed, "
                 "in the initial state; the deviation-bounded part in 7 further start contexts (small / inverted viewport, xor + user line + user fill pattern, saved image, vertical font + text window, changed palette, button style); 6 terminators; text commands x 25 text tails "
-                "(text variables, button label separators, continuation lines, icon file names) x numeric prefix lengths 0..=12; all ordered command pairs x 9 digit fills; every command followed by 14 well-formed drawing probes; a continuation backslash at every position of every parameter string; flood fills from an 8x6 grid over 7 scenes with obstacles x 6 fill styles x 3 borders. "
+                "(text variables, button label separators, continuation lines, icon file names) x numeric prefix lengths 0..=12; all ordered command pairs x 9 digit fills; every command followed by 14 well-formed drawing probes; a continuation backslash at every position of every parameter string; flood fills from an 8x6 grid over 7 scenes with obstacles x 6 fill styles x 3 borders and inside 6 viewports (beyond the screen, small, lower right, inverted, one pixel). "
                 "IGS: every command letter x 0..=12 parameters over a 24-value menu (0..9, 15, 16, 99, 199, 200, 319, 320, 639, 640, 9998, 99999, -1, -50, empty): 4 constant vectors with <=1 (thorough 2 for <=6 parameters) positions changed, in 6 start contexts; "
-                "loop shapes (from/to/step over {0,3,99999}, 3 separators, 5 parameter templates, 4 counts, 4 looped commands), chains of every command with 8 followers, write-text, every extended sub command 0..=12 x 0..=8 parameters, pauses and loop delays; every command with 0..=8 parameters (first varied separately) followed by 18 well-formed drawing probes; flood fills over 5 scenes; "
+                "loop shapes (from/to/step over {0,3,99999}, 3 separators, 5 parameter templates, 4 counts, 4 looped commands), chains of every command with 8 followers, write-text, every extended sub command 0..=12 x 0..=8 parameters, pauses and loop delays; every command with 0..=8 parameters (first varied separately) followed by 22 well-formed drawing probes (incl. grab / paste of pieces that reach beyond the grabbed picture); flood fills over 5 scenes; "
                 "every byte after 8 lead-ins. per stream: catch_unwind per character, CPU <= 0.5 s, wall <= 1.5 s, canvas read back and checked for width x height x 4 bytes; non-trivial = every batch",
         "level_text": "every command of both command tables is executed on the real parsers with every parameter string of the deviation-bounded scope in every start context; nothing is sampled (the 'randomly beyond' part of the quantifier is outside this technique and not claimed)",
         "level_note": "icon / file commands see a harness-owned directory with 4 fixture files (valid, truncated, oversized header, wide); pending IGS loop steps are polled for at most 64 steps",
